@@ -95,7 +95,8 @@ func init() {
 	symExternals["(*database/sql.Conn).ExecContext"] = exec
 	symExternals["(*database/sql.DB).ExecContext"] = exec
 	queryRow := func(fr *frame, args []value) value {
-		event("QueryRow:%s", normSQL(args[2]))
+		lastQueryRow = normSQL(args[2])
+		event("QueryRow:%s", lastQueryRow)
 		return zeroPtr(fr.i, "database/sql", "Row")
 	}
 	symExternals["(*database/sql.Conn).QueryRowContext"] = queryRow
@@ -123,6 +124,9 @@ func init() {
 	}
 }
 
+// lastQueryRow: text of the most recent tier-1 QueryRow (selects the menu of scanned strings).
+var lastQueryRow string
+
 // havocScanInto stores an arbitrary value of the destination type (tier-1 fault/answer schedules).
 func havocScanInto(t types.Type, cell *value) bool {
 	switch b := t.Underlying().(type) {
@@ -137,7 +141,13 @@ func havocScanInto(t types.Type, cell *value) bool {
 			return true
 		}
 		if b.Kind() == types.String {
-			*cell = []string{"leased", "queued", "m0"}[X.choose(3)]
+			menu := []string{"leased", "queued", "m0"}
+			if strings.HasPrefix(lastQueryRow, "PRAGMA journal_mode") {
+				menu = []string{"wal", "WAL", "delete"} // what the pragma may answer: the mode now in force
+			}
+			v := menu[X.choose(len(menu))]
+			event("ScanString:%s", v)
+			*cell = v
 			return true
 		}
 	case *types.Struct:
